@@ -4,15 +4,15 @@
 (* One trace file may hold several executions; each starts with Begin.      *)
 (* Events (recorded by the order-controlled scheduler or by the tracing     *)
 (* callback under dask's own schedulers):                                   *)
-(*   Begin{N,PSize,W,FailAt}  Start{p}  Finish{p,ids}  Fail{p}  Errored     *)
+(*   Begin{N,PSize,W,Fail}    Start{p}  Finish{p,ids}  Fail{p}  Errored     *)
 (*   Return{ids}  Raised  Kernel{same}  End                                 *)
 (* ids are event ids obtained by matching each result, bit for bit, with    *)
 (* the one-at-a-time evaluation of the same events (0 = matches nothing).   *)
 (***************************************************************************)
-EXTENDS TraceKit, Batch
+EXTENDS TraceKit, Batch, SequencesExt
 
 NoConfigs == {}
-Idle == [N |-> 0, PSize |-> 1, W |-> 1, FailAt |-> 0]
+Idle == [N |-> 0, PSize |-> 1, W |-> 1, Fail |-> {}]
 
 FailingPart == {p \in Parts(cfg) : FailGuard(p)}
 
@@ -33,17 +33,17 @@ Check(e) ==
                               e.ids = Concat(res, NParts(cfg))>>,
                             <<"Return: OkIsIdentity (input order, nothing missing/duplicated/shifted)",
                               e.ids = Iota(cfg.N)>>,
-                            <<"Return: NeverSilent (a failing event must raise)", cfg.FailAt = 0>> >>)
+                            <<"Return: NeverSilent (a failing event must raise)", cfg.Fail = {}>> >>)
       [] e.kind = "Raised" ->
             Fails(<< <<"Raised: only after a partition failed", outcome.tag = "Err">>,
-                     <<"Raised: no error without a failing event", cfg.FailAt # 0>> >>)
+                     <<"Raised: no error without a failing event", cfg.Fail # {}>> >>)
       [] e.kind = "Kernel" -> <<>>   \* informational: a result-neutral cache on the kernel object is allowed by C10
       [] e.kind = "End" -> Fails(<< <<"Terminates: the call returned or raised", outcome.tag # "None" \/ e.raised>> >>)
       [] OTHER -> <<"unknown event kind">>
 
 Effect(e) ==
     CASE e.kind = "Begin" ->
-            LET c == [N |-> e.N, PSize |-> e.PSize, W |-> e.W, FailAt |-> e.FailAt] IN
+            LET c == [N |-> e.N, PSize |-> e.PSize, W |-> e.W, Fail |-> Range(e.Fail)] IN
             /\ cfg' = c
             /\ st' = [p \in Parts(c) |-> "pending"]
             /\ res' = [p \in Parts(c) |-> <<>>]
